@@ -540,6 +540,47 @@ func mapsetFamily() *core.Family {
 	}
 }
 
+// returned byte slices belong to the caller: scribbling over what MarshalCedar / MarshalJSON
+// returned must not change what the value (or any other value) renders as afterwards.
+func ownedBytes() *core.Family {
+	return &core.Family{
+		Name: "returned-bytes-are-owned",
+		Desc: fmt.Sprintf("every value of the universe and of its closure (%d values): the bytes returned by MarshalCedar and MarshalJSON are overwritten by the caller; String / MarshalCedar / MarshalJSON of that value, of a set and of a record holding it are unchanged afterwards", len(implU)),
+		N:    int64(len(implU)),
+		Run: func(t *core.T, i int64) {
+			v := implU[i]
+			holders := []types.Value{v, types.NewSet(v, types.Long(7)), types.NewRecord(types.RecordMap{"k": v})}
+			render := func() string {
+				var sb strings.Builder
+				for _, h := range holders {
+					js, _ := json.Marshal(h)
+					sb.WriteString(h.String() + "|" + string(h.MarshalCedar()) + "|" + string(js) + "\n")
+				}
+				return sb.String()
+			}
+			before := render()
+			for _, h := range holders {
+				b := h.MarshalCedar()
+				for k := range b {
+					b[k] = 'X'
+				}
+				if m, ok := h.(json.Marshaler); ok {
+					jb, _ := m.MarshalJSON()
+					for k := range jb {
+						jb[k] = 'Y'
+					}
+				}
+			}
+			if after := render(); after != before {
+				t.Fail("returned-bytes-alias-internal-state:"+U[i].K.String(), U[i].Key(), before, after)
+			}
+			t.Nontrivial()
+			t.AddStates(1)
+			t.Sample(U[i].Key())
+		},
+	}
+}
+
 func pairFamily(maxLen int) *core.Family {
 	n := len(U)
 	cnt := seqCount(n, maxLen)
@@ -960,9 +1001,9 @@ func Check() *core.Check {
 		Assumptions: []string{"the reference equality is structural and type-distinguishing (Cedar ==)"},
 		Families: func(tier string) []*core.Family {
 			if tier == "thorough" {
-				return []*core.Family{closureFamily(), recordFamily(), setFamily(6), pairFamily(3), largeFamily(), mapsetFamily(), c13.UsedReceivers(), immutability(7)}
+				return []*core.Family{closureFamily(), recordFamily(), setFamily(6), pairFamily(3), largeFamily(), mapsetFamily(), c13.UsedReceivers(), ownedBytes(), immutability(7)}
 			}
-			return []*core.Family{closureFamily(), recordFamily(), setFamily(5), pairFamily(2), largeFamily(), mapsetFamily(), c13.UsedReceivers(), immutability(5)}
+			return []*core.Family{closureFamily(), recordFamily(), setFamily(5), pairFamily(2), largeFamily(), mapsetFamily(), c13.UsedReceivers(), ownedBytes(), immutability(5)}
 		},
 	}
 }
